@@ -645,10 +645,11 @@ func (t *stdioClientTransport) close() error {
 		}
 	}
 
-	// Close all pending request channels.
+	// Forget all pending requests. Their channels are closed by the sendRequest
+	// call that owns them (closing them here as well would close them twice);
+	// the waiting calls are woken by the cancelled transport context.
 	t.pendingMutex.Lock()
-	for reqID, ch := range t.pendingRequests {
-		close(ch)
+	for reqID := range t.pendingRequests {
 		delete(t.pendingRequests, reqID)
 	}
 	t.pendingMutex.Unlock()
